@@ -1,0 +1,40 @@
+//go:build verif
+
+/*
+ * Verification exports: add-only wrappers that expose unexported functions to the
+ * external verification harness. Compiled only with `-tags verif`.
+ */
+
+package badger
+
+// VerifHeaderEncode runs header.Encode on a buffer of the given capacity.
+func VerifHeaderEncode(klen, vlen uint32, expiresAt uint64, meta, userMeta byte) []byte {
+	h := header{klen: klen, vlen: vlen, expiresAt: expiresAt, meta: meta, userMeta: userMeta}
+	var buf [maxHeaderSize + 16]byte
+	n := h.Encode(buf[:])
+	return append([]byte{}, buf[:n]...)
+}
+
+// VerifHeaderDecode runs header.Decode.
+func VerifHeaderDecode(buf []byte) (klen, vlen uint32, expiresAt uint64, meta, userMeta byte, n int) {
+	var h header
+	n = h.Decode(buf)
+	return h.klen, h.vlen, h.expiresAt, h.meta, h.userMeta, n
+}
+
+// VerifVptrEncode runs valuePointer.Encode.
+func VerifVptrEncode(fid, length, offset uint32) []byte {
+	return valuePointer{Fid: fid, Len: length, Offset: offset}.Encode()
+}
+
+// VerifVptrDecode runs valuePointer.Decode.
+func VerifVptrDecode(b []byte) (fid, length, offset uint32) {
+	var p valuePointer
+	p.Decode(b)
+	return p.Fid, p.Len, p.Offset
+}
+
+// VerifVptrLess runs valuePointer.Less.
+func VerifVptrLess(f1, l1, o1, f2, l2, o2 uint32) bool {
+	return valuePointer{Fid: f1, Len: l1, Offset: o1}.Less(valuePointer{Fid: f2, Len: l2, Offset: o2})
+}
